@@ -47,6 +47,7 @@ func checkC02(c *Ctx, r *Report) {
 	noPrefixCopy(c, r, "C02.R2.no-prefix-copy", fns)
 	base32Agreement(c, r, "C02.R5.base32-encoding", "the decode buffer is sized for another text length than is decoded into it: re-packing an NSEC3 the decoder accepted panics inside encoding/base32")
 	noQuadraticScan(c, r, "C02.R3.no-quadratic-scan", fns)
+	round12(c, r, "C02")
 }
 
 func c02R1(c *Ctx, r *Report) {
